@@ -1,17 +1,22 @@
 """C10 - 2D bond-orientational order equals the l-fold definition (E1 over neighbour topologies and signed weights,
-perfect lattices, rotation covariance, E2 over frame histories for time average / correlations)."""
+perfect lattices, rotation covariance, E2 over frame histories for time average / correlations).
+
+Round-4 slices (docs/STRENGTHEN_TASK2.md; alphabets in mc/ref/c10y.py, machinery shared with checks/c09.py): C10.frames (frame classes), C10.files (output_phi,
+time_average(outputfile), csv files), C10.types (storage forms, unwrapped / dilated coordinates, zero options), C10.sequence words, dilated lattices in C10.lattice."""
 import itertools
 import math
 import os
 
 import numpy as np
 
+import checks.c09 as C9
 from checks.c09 import (check_spatial, check_time, core_topologies, distinct_orders, scale_inputs, scale_lists, scale_nmax, scale_sig,
                         screen_margin)
 from mc import alphabets as A
 from mc.harness import Result, Sub, digest
 from mc.ref import boo as B
 from mc.ref import c10x as X2
+from mc.ref import c10y as Y2
 from mc.ref.base import close, maxdiff, mk_snaps, pair_table, write_neighbor_file, write_weight_file
 
 ASSUMPTIONS = [
@@ -19,7 +24,7 @@ ASSUMPTIONS = [
     "1e-7 to a half-cell tie are screened out before the library runs",
     "reference psi_l = sum_j A_ij ((x+iy)/r)^l / sum_j |A_ij| (de Moivre, no atan2); float tolerance rtol 1e-9 / atol 1e-11; "
     "modulus <= 1 + 1e-12; perfect lattices |psi_l| = 1 within 1e-12",
-    "weights are non-zero floats (alphabet {1, 2, -1} and constants); every particle has >= 1 neighbour and cn <= Nmax",
+    "weights are floats (alphabet {1, 2, -1}, constants; single exact zeros and integer tokens in C10.frames / C10.types) whose absolute values have a positive row sum; every particle has >= 1 neighbour and cn <= Nmax",
     "rotation covariance is checked with open boundaries (ppp = 0,0) about the origin, implementation vs implementation, "
     "atol 1e-10",
     "time_average (as in C16, not more): window w = floor(period / (step difference * dt)) in rational arithmetic, "
@@ -37,6 +42,14 @@ ASSUMPTIONS = [
     "loop references to 1e-14); placements with a periodic fractional pair component within 1e-9 of a half-cell tie or a pair within 1e-9 of a bin edge are "
     "replaced by the next hash table; library-written Voronoi edge lengths may contain 0.000000 entries: accepted as long as the row sum of |weights| is positive",
     "call sequences: a call on an object that has served other calls must return what the same call returns on a fresh object (rtol 1e-12)",
+    "call words (round 4): as in C09 - every call of a word made in one forked child (library modules re-imported) returns bit for bit what it returns as the first call of a fresh child",
+    "frame classes (round 4): only the tilt factor changes between frames (boxlength is asserted constant); each frame is analysed with its own cell, its own neighbour / weight table "
+    "width and its own weights; whether a frame contains negative weights is a property of that frame; a single exact zero weight is inside the domain (the bond drops out of numerator "
+    "and denominator), a row of zeros is outside; weights may be written as signed integer tokens ('-1 2 1')",
+    "storage forms (round 4): as in C09 (ppp list / tuple / bool / int32, float32 positions at 2e-6 for psi_l only, Fortran / strided positions, l as np.int64, Nmax as np.int32, "
+    "unwrapped coordinates, dilation by 2^-33 / 2^27 with spatial_corr left to C13, time_corr(dt = 0.0 / 0) as a value)",
+    "output files (round 4): output_phi and time_average(outputfile) write <name>.npy (np.save appends '.npy' unless present) holding the returned complex array bit for bit, and "
+    "<outputfile>.snapshot_id.dat = header 'middle_snapshot_id' + the returned ids as integers; the returned values do not depend on whether a file is requested",
 ]
 
 LS = list(range(1, 13))
@@ -221,13 +234,17 @@ def gen_lattice(tier, seed):
             if name == "honeycomb" and variant == "tri":
                 continue
             for shift in (False, True):
-                for scale in (1.0, 1.25):
+                for scale in (1.0, 1.25, 2.0 ** -33, 2.0 ** 27):  # the last two: cell edge ~1e-9 (SI units) / ~1e9, bond directions unchanged
                     for l in LS:
+                        if scale not in (1.0, 1.25) and not (shift and l in (3, 4, 6, 12)):
+                            continue
                         yield {"kind": "periodic", "name": name, "variant": variant, "shift": shift, "scale": scale, "l": l}
     for l in LS:
         for ia, alpha in enumerate((0.0, 0.3, 2 * math.pi / 7)):
             for wmode in ("none", "pos"):
                 yield {"kind": "star", "l": l, "alpha": alpha, "ia": ia, "wmode": wmode}
+        for dil in (-33, 27):
+            yield {"kind": "star", "l": l, "alpha": 0.3, "ia": 1, "wmode": "pos", "dil": dil}
 
 
 def run_lattice(case):
@@ -253,6 +270,7 @@ def run_lattice(case):
         rad = [1.0 + 0.1 * (k % 3) for k in range(l)]
         pos = np.array([[0.0, 0.0]] + [[r * math.cos(a), r * math.sin(a)] for r, a in zip(rad, ang)]) + 10.0
         H = np.diag([20.0, 20.0])
+        pos, H = pos * 2.0 ** case.get("dil", 0), H * 2.0 ** case.get("dil", 0)
         ppp = [0, 0]
         n = len(pos)
         nl = [list(range(1, n))] + [[0] for _ in range(1, n)]
@@ -681,6 +699,11 @@ SEQ_TOPO = [
 
 
 def gen_sequence(tier, seed):
+    yield from gen_sequence_object(tier, seed)
+    yield from gen_words(tier, seed)
+
+
+def gen_sequence_object(tier, seed):
     roots = [(6, "none", "trivar"), (4, "signed", "orth")] if tier == "quick" else [(6, "none", "trivar"), (4, "signed", "orth"), (1, "signed", "tri"), (12, "none", "tri2")]
     for l, wmode, cell in roots:
         for depth in (2, 3):
@@ -725,6 +748,8 @@ def same(a, b):
 def run_sequence(case):
     """Explicit-state search over call sequences on ONE boo_2d object (see C09.sequence): the result of every call must equal the result of
     the same call on a fresh object whatever was called before; ParticlePhi must stay unchanged; a second live object must be unaffected."""
+    if case.get("part") == "words":
+        return run_words(case)
     R = Result()
     sig = {"wmode": case["wmode"], "cell": case["cell"]}
     nL = len(SEQ_LETTERS)
@@ -757,6 +782,332 @@ def run_sequence(case):
     R.outcome([a, depth] + list(fresh[a]), nd=8)
     R.nontrivial = True
     return R
+
+
+# ------------------------------------------------------------------------------------------ C10.frames (L2 / L4: frame CLASSES)
+FR_LS = [6, 4, 1, 3, 12, 2, 5, 11, 8, 10, 9, 7]
+FR_CELLS = ("orth", "tri", "tri2")
+
+
+def frames_case(seed, topo, cells, wcl, k):
+    return {"seed": seed, "topo": list(topo), "cells": list(cells), "wcl": None if wcl is None else list(wcl), "l": FR_LS[k % len(FR_LS)],
+            "nmax": ("default", "tight", "below")[k % 3]}
+
+
+def gen_frames(tier, seed):
+    q = tier == "quick"
+    k = 0
+    cellpairs = [("orth", "orth"), ("orth", "tri"), ("tri", "orth"), ("tri", "tri2")] if q else list(itertools.product(FR_CELLS, repeat=2))
+    wpairs = ([None, ("equal", "signed"), ("signed", "equal"), ("pos", "signed"), ("signed", "pos"), ("signed", "zero"), ("zero", "signed"), ("int", "signed")] if q
+              else [None] + list(itertools.product(Y2.W2_CLASSES, repeat=2)))
+    for ta in Y2.TOPO_NAMES:
+        for tb in Y2.TOPO_NAMES:
+            for cp in cellpairs:
+                for wp in wpairs:
+                    yield frames_case(seed, (ta, tb), cp, wp, k)
+                    k += 1
+    t3 = ("wideF", "one", "mid") if q else Y2.TOPO_NAMES
+    for tt in itertools.product(t3, repeat=3):
+        for ct in (("orth", "tri", "tri2"), ("tri", "orth", "tri"), ("tri2", "tri", "orth")):
+            for wt in (None, ("equal", "pos", "signed"), ("zero", "int", "equal")):
+                yield frames_case(seed, tt, ct, wt, k)
+                k += 1
+
+
+def frames_inputs(case):
+    F = len(case["topo"])
+    Hs = [cell2(c) for c in case["cells"]]
+    frames = [np.array(positions(case["seed"], 5, "cluster", Hs[f], tag=f"fr{f}{case['cells'][f]}")) for f in range(F)]
+    nls = [Y2.TOPO5[t] for t in case["topo"]]
+    wts = None if case["wcl"] is None else [Y2.weights_class2(nls[f], case["wcl"][f], f) for f in range(F)]
+    return Hs, frames, nls, wts
+
+
+def frames_nmax(case, nls, wts):
+    """None (the default 10), the largest coordination number of the trajectory, or one below it (see checks/c09.py: frames_nmax)"""
+    maxcn = max(len(x) for nl in nls for x in nl)
+    if case["nmax"] == "default":
+        return None
+    if case["nmax"] == "below" and maxcn >= 2:
+        _, w2 = X2.truncate(nls, wts, maxcn - 1)
+        if w2 is None or all(sum(abs(v) for v in row) > 0 for fr in w2 for row in fr):
+            return maxcn - 1
+    return maxcn
+
+
+def frames_sig(case):
+    cl = ["orth" if c == "orth" else "tilted" for c in case["cells"]]
+    mx = [Y2.MAXCN5[t] for t in case["topo"]]
+    return {"F": len(case["topo"]), "cells": "same" if len(set(case["cells"])) == 1 else f"{cl[0]}-first", "wfirst": case["wcl"][0] if case["wcl"] else "none",
+            "width": "same" if len(set(mx)) == 1 else ("widest-first" if mx[0] == max(mx) else ("narrowest-first" if mx[0] == min(mx) else "mixed")), "nmax": case["nmax"]}
+
+
+def frames_build(case, prefix, Hs, frames, nls_file, wts_file, ppp=(1, 1), steps=None, l=None, nmax="case", positions_raw=None, output_phi="", hform="c"):
+    from PyMatterSim.static.boo import boo_2d
+
+    F = len(frames)
+    write_neighbor_file(f"{prefix}_nb.dat", nls_file)
+    if wts_file is not None:
+        Y2.write_weights_tokens(f"{prefix}_w.dat", wts_file, [Y2.file_class(c) for c in case["wcl"]], "id   cn   edgelengthlist")
+    nm = frames_nmax(case, nls_file, wts_file) if nmax == "case" else nmax
+    steps = steps or [700 + 100 * f for f in range(F)]
+    if positions_raw is None:
+        snaps = mk_snaps([np.asarray(f).tolist() for f in frames], np.array(Hs), [1] * 5, steps=steps)
+    else:
+        snaps = Y2.mk_snaps_raw(positions_raw, Hs, steps, hform=hform)
+    kw = {} if nm is None else {"Nmax": nm}
+    b = boo_2d(snaps, case["l"] if l is None else l, f"{prefix}_nb.dat", weightsfile=f"{prefix}_w.dat" if wts_file is not None else "", ppp=ppp, output_phi=output_phi, **kw)
+    nls, wts = X2.truncate(nls_file, wts_file, nm if nm is not None else 10)
+    return b, snaps, nls, wts, steps
+
+
+def run_frames(case):
+    R = Result()
+    l, ppp = case["l"], [1, 1]
+    Hs, frames, nls_file, wts_file = frames_inputs(case)
+    F = len(frames)
+    sig = frames_sig(case)
+    if min(screen_margin([fr], H, ppp) for fr, H in zip(frames, Hs)) < 1e-7:
+        return R.screen()
+    b, snaps, nls, wts, steps = frames_build(case, "c10_fr", Hs, frames, nls_file, wts_file, ppp=np.array(ppp))
+    ser = np.array([B.ref_psi(frames[f], Hs[f], ppp, nls[f], l, wts[f] if wts is not None else None) for f in range(F)])
+    where = f"frames {case['topo']} x cells {case['cells']} x weights {case['wcl']} (Nmax={case['nmax']}, l={l})"
+    sub = "C10.weights" if wts is not None else "C10.psi"
+    got = b.ParticlePhi
+    if got.shape != ser.shape or not close(got, ser):
+        bad = "shape" if got.shape != ser.shape else int(np.argwhere(~np.isclose(got, ser, rtol=1e-9, atol=1e-11))[0][0])
+        R.fail(f"psi_l of frame {bad} differs from the definition applied to that frame's own cell / neighbour table / weights: {where}", sub=sub,
+               sig=dict(sig, clause="psi"), exp=ser, obs=got)
+        return R
+    if np.any(np.abs(got) > 1 + 1e-12):
+        R.fail(f"modulus exceeds one: {where}", sub="C10.modulus", sig=dict(sig, clause="modulus"))
+    check_time(R, sig, b.time_corr(dt=0.002), ser, steps, 0.002, False, sub="C10.time")
+    ref = B.ref_spatial(frames, np.array(Hs), ppp, 0.5, ser, "complex")
+    popl = check_spatial(R, sig, b.spatial_corr(rdelta=0.5), ref, False, sub="C10.spatial")
+    el = ser.size + F + 2 * len(ref["r"])
+    for per in ("0.2", "0.4"):
+        el += check_time_average(R, sig, b, ser, per, 100, 0.002)
+    R.outcome(got, nd=9)
+    R.nontrivial = bool(np.abs(ser).max() > 1e-9 and popl >= 1)
+    R.elem = el
+    return R
+
+
+# ------------------------------------------------------------------------------------------ C10.files (every output-file branch)
+FILE_NAMES = ["plain", "plain.npy", "text.dat", "odd.dat.npy"]
+
+
+def gen_files(tier, seed):
+    q = tier == "quick"
+    seqs = [("one", "wideL"), ("mid", "one", "two"), ("wideF", "two", "one", "mid")] if q else [("one", "wideL"), ("wideF", "one"), ("mid", "one", "two"), ("two", "wideL", "one"),
+                                                                                                 ("wideF", "two", "one", "mid"), ("one", "one", "wideL", "mid", "two")]
+    k = 0
+    for topo in seqs:
+        for wcl in (None, "signed"):
+            cells = [FR_CELLS[(f + k) % 3] for f in range(len(topo))]
+            for l in ((6, 1) if q else LS):
+                c = frames_case(seed, topo, cells, None if wcl is None else [wcl] * len(topo), 0)
+                c.update(l=l, nmax="tight" if k % 2 else "default")
+                yield c
+            k += 1
+
+
+def run_files(case):
+    import pandas as pd
+
+    R = Result()
+    l, ppp = case["l"], [1, 1]
+    Hs, frames, nls_file, wts_file = frames_inputs(case)
+    F = len(frames)
+    sig = {"F": F, "weighted": wts_file is not None}
+    if min(screen_margin([fr], H, ppp) for fr, H in zip(frames, Hs)) < 1e-7:
+        return R.screen()
+    el = 0
+    ser = None
+    for phi_name in ("c10_fl_phi", "c10_fl_phi.npy"):
+        Y2.rm(Y2.npy_name(phi_name))
+        b, snaps, nls, wts, steps = frames_build(case, "c10_fl", Hs, frames, nls_file, wts_file, ppp=np.array(ppp), output_phi=phi_name)
+        if ser is None:
+            ser = np.array([B.ref_psi(frames[f], Hs[f], ppp, nls[f], l, wts[f] if wts is not None else None) for f in range(F)])
+        if b.ParticlePhi.shape != ser.shape or not close(b.ParticlePhi, ser):
+            R.fail("psi_l differs from the reference", sub="C10.psi", sig=dict(sig, clause="psi"))
+            return R
+        fn = Y2.npy_name(phi_name)
+        if not os.path.exists(fn) or not np.array_equal(np.load(fn), b.ParticlePhi):
+            R.fail(f"output_phi={phi_name!r}: {fn} missing or different from ParticlePhi", sub="C10.files", sig=dict(sig, clause="phi_file"))
+        Y2.rm(fn)
+        el += ser.size
+    for per in ("0.2", "0.4", "0.6"):
+        w = B.ref_window_len(per, 100, 0.002)
+        if not 1 <= w <= F - 1:
+            continue
+        for cplx in (True, False):
+            base = b.time_average(time_period=float(per), dt=0.002, average_complex=cplx)
+            for nm in [None] + FILE_NAMES:
+                name = ("c10_fl_ta_" + nm) if nm else ""
+                idf = name + ".snapshot_id.dat"
+                Y2.rm(Y2.npy_name(name) if name else None, idf if name else None)
+                avg, ids = b.time_average(time_period=float(per), dt=0.002, average_complex=cplx, outputfile=name)
+                avg, ids = np.asarray(avg), np.asarray(ids)
+                sg = dict(sig, average_complex=cplx)
+                if avg.shape != np.asarray(base[0]).shape or not np.array_equal(avg, base[0], equal_nan=True) or not np.array_equal(ids, base[1]):
+                    R.fail(f"time_average(outputfile={name!r}) returns something else than without a file", sub="C10.time_average", sig=dict(sg, clause="with_file"))
+                    continue
+                if not name:
+                    continue
+                fn = Y2.npy_name(name)
+                if not os.path.exists(fn):
+                    R.fail(f"time_average(outputfile={name!r}): {fn} was not written", sub="C10.files", sig=dict(sg, clause="file_missing"))
+                else:
+                    back = np.load(fn)
+                    if back.shape != avg.shape or back.dtype != avg.dtype or not np.array_equal(back, avg, equal_nan=True):
+                        R.fail(f"time_average: {fn} differs from the returned average", sub="C10.files", sig=dict(sg, clause="file_npy"), exp=avg, obs=back)
+                rows = Y2.read_tokens(idf)
+                if rows is None or rows[0] != ["middle_snapshot_id"] or len(rows) != 1 + len(ids) or not all(len(r) == 1 and Y2.INT_.match(r[0]) for r in rows[1:]):
+                    R.fail(f"time_average: {idf} missing or not 'middle_snapshot_id' + one integer per averaged row", sub="C10.files", sig=dict(sg, clause="ids_layout"))
+                elif [int(r[0]) for r in rows[1:]] != [int(x) for x in ids]:
+                    R.fail(f"time_average: {idf} differs from the returned snapshot ids", sub="C10.files", sig=dict(sg, clause="ids"), exp=ids, obs=rows[1:])
+                Y2.rm(fn, idf)
+                el += avg.size + ids.size
+        el += check_time_average(R, sig, b, ser, per, 100, 0.002)
+    for name, call, sub, ndec in (("sp", lambda fn: b.spatial_corr(rdelta=0.5, outputfile=fn), "C10.spatial", 8), ("tc", lambda fn: b.time_corr(dt=0.002, outputfile=fn), "C10.time", 8)):
+        fn = f"c10_fl_{name}.csv"
+        Y2.rm(fn)
+        ret = call(fn)
+        if not os.path.exists(fn):
+            R.fail(f"{name}: {fn} was not written", sub="C10.files", sig=dict(sig, clause="csv_missing", which=name))
+            continue
+        tab = pd.read_csv(fn)
+        os.remove(fn)
+        if list(tab.columns) != list(ret.columns) or tab.shape != ret.shape or not np.allclose(tab.values, ret.values.astype(float), rtol=0, atol=0.5000001e-8):
+            R.fail(f"{name} csv differs from the returned table", sub="C10.files", sig=dict(sig, clause="csv", which=name))
+        el += ret.size
+    R.outcome(b.ParticlePhi, nd=9)
+    R.nontrivial = bool(np.abs(ser).max() > 1e-9)
+    R.elem = el
+    return R
+
+
+# ------------------------------------------------------------------------------------------ C10.types (L4 / L5 / L7 / L8 and dilation)
+TYPE_FORMS = ["base", "ppp_list", "ppp_tuple", "ppp_bool", "ppp_int32", "pos_f32", "pos_fortran", "pos_strided", "l_npint", "nmax_npint", "face",
+              "unwrapped", "dilate-33", "dilate+27", "zero_opts", "h_fortran", "w_x2^-33", "w_x1e-9", "w_x2^27", "step_2e9"]
+WSCALE = {"w_x2^-33": 2.0 ** -33, "w_x1e-9": 1e-9, "w_x2^27": 2.0 ** 27}  # Voronoi edge lengths in SI units: psi_l is scale-free in the weights
+
+
+def gen_types(tier, seed):
+    q = tier == "quick"
+    for ti, topo in enumerate(Y2.TOPO_NAMES):
+        for form in TYPE_FORMS:
+            for l in ((1, 6, 11) if q else LS):
+                for cell in ("orth", "tri"):
+                    masks = ([1, 1], [0, 1], [1, 0]) if form.startswith("ppp") or form in ("base", "unwrapped") else ([1, 1],)
+                    for ppp in masks:
+                        for wcl in (None, "int" if form == "base" else "signed"):
+                            if form in WSCALE and wcl is None:
+                                continue
+                            yield {"seed": seed, "topo": [topo, Y2.TOPO_NAMES[(ti + 2) % 5], Y2.TOPO_NAMES[(ti + 3) % 5]], "cells": [cell] * 3,
+                                   "wcl": None if wcl is None else [wcl, "zero", "pos"], "l": l, "form": form, "ppp": list(ppp),
+                                   "nmax": "tight" if form == "nmax_npint" else "default"}
+
+
+def run_types(case):
+    R = Result()
+    l, ppp, form = case["l"], case["ppp"], case["form"]
+    Hs, frames, nls_file, wts_file = frames_inputs(case)
+    if form == "face":
+        f0 = np.array(Y2.FACE2, float)
+        frames = [f0, f0[::-1].copy(), np.roll(f0, 2, axis=0)]
+    if form in WSCALE:
+        wts_file = [[[x * WSCALE[form] for x in row] for row in fr] for fr in wts_file]
+    F = len(frames)
+    sig = {"form": form, "cell": case["cells"][0], "masked": bool(0 in ppp), "weighted": wts_file is not None}
+    if min(screen_margin([fr], H, ppp) for fr, H in zip(frames, Hs)) < 1e-7:
+        return R.screen()
+    if form == "unwrapped":
+        frames = [fr + sgn * (np.array(Y2.UNWRAP2) * np.array(ppp)) @ Hs[f] for f, (fr, sgn) in enumerate(zip(frames, (1, -1, 1)))]
+    dil = Y2.DILATE.get(form, 1.0)
+    frames = [fr * dil for fr in frames]
+    Hs = [H * dil for H in Hs]
+    store = {"pos_f32": "f32", "pos_fortran": "fortran", "pos_strided": "strided", "h_fortran": "fortran"}.get(form, "c")
+    arrays = [Y2.store_positions(f, store) for f in frames]
+    keep = [a.copy() for a in arrays]
+    pa = {"ppp_list": list(ppp), "ppp_tuple": tuple(ppp), "ppp_bool": np.array(ppp, dtype=bool), "ppp_int32": np.array(ppp, dtype=np.int32)}.get(form, np.array(ppp))
+    nm = frames_nmax(case, nls_file, wts_file)
+    b, snaps, nls, wts, steps = frames_build(case, "c10_ty", Hs, frames, nls_file, wts_file, ppp=pa, l=np.int64(l) if form == "l_npint" else l,
+                                             steps=[2_000_000_700 + 100 * f for f in range(F)] if form == "step_2e9" else None,  # L9: timesteps beyond int32
+                                             nmax=np.int32(nm) if form == "nmax_npint" else nm, positions_raw=arrays, hform="fortran" if form == "h_fortran" else "c")
+    rt, at = (2e-6, 2e-6) if form == "pos_f32" else (1e-9, 1e-11)
+    ser = np.array([B.ref_psi(np.asarray(keep[f], float), Hs[f], ppp, nls[f], l, wts[f] if wts is not None else None) for f in range(F)])
+    where = f"form {form}, frames {case['topo']}, cell {case['cells'][0]}, ppp {ppp}, l={l}"
+    got = b.ParticlePhi
+    if got.shape != ser.shape or got.dtype != np.complex128 or not close(got, ser, rt, at):
+        R.fail(f"psi_l differs from the reference by {maxdiff(got, ser)}: {where}", sub="C10.weights" if wts is not None else "C10.psi", sig=dict(sig, clause="psi"), exp=ser, obs=got)
+        return R
+    if np.any(np.abs(got) > 1 + 1e-12):
+        R.fail(f"modulus exceeds one: {where}", sub="C10.modulus", sig=dict(sig, clause="modulus"))
+    el = ser.size
+    if form != "pos_f32":
+        for dt in ((0.0, 0) if form == "zero_opts" else (0.002,)):  # L8: an explicit zero is a value, not "use the default"
+            check_time(R, sig, b.time_corr(dt=dt), ser, steps, dt, False, sub="C10.time")
+        for per in ("0.2", "0.4"):
+            el += check_time_average(R, sig, b, ser, per, 100, 0.002)
+        if dil == 1.0:  # the pair histogram of a dilated cell belongs to C13 (the reference's edge tolerance is absolute)
+            ref = B.ref_spatial([np.asarray(k, float) for k in keep], np.array(Hs), ppp, 0.5, ser, "complex")
+            check_spatial(R, sig, b.spatial_corr(rdelta=0.5), ref, False, sub="C10.spatial")
+            el += 2 * len(ref["r"])
+    for a, k0 in zip(arrays, keep):
+        if a.dtype != k0.dtype or not np.array_equal(a, k0):
+            R.fail(f"the position array was modified: {where}", sub="C10.psi", sig=dict(sig, clause="input_modified"))
+    for s_, H in zip(snaps.snapshots, Hs):
+        if not np.array_equal(s_.hmatrix, H) or s_.hmatrix.flags["F_CONTIGUOUS"] != (form == "h_fortran"):
+            R.fail(f"the cell matrix of the snapshot was modified: {where}", sub="C10.psi", sig=dict(sig, clause="hmatrix_modified"), exp=H, obs=s_.hmatrix)
+    R.outcome(got, nd=5 if form == "pos_f32" else 9)
+    R.nontrivial = bool(np.abs(ser).max() > 1e-9)
+    R.elem = el
+    return R
+
+
+# ------------------------------------------------------------------------------------------ C10.sequence, part "words" (L6)
+# see checks/c09.py (C09.sequence words): letters = complete (object, call) tuples; same l / other neighbour file (a0-b0), same neighbour file /
+# other configurations (a0-c0), same files / other l (a0-d0-d1), same file NAME / other content (s0-s1), weighted with other weights on the
+# same topology (w0-w1), a boo_3d object before / after a boo_2d object on the same neighbour file (q0, q1), time_average in both modes and with
+# two periods, spatial_corr and time_corr on ONE object (a0..a4).
+WORD_LETTERS = [
+    {"id": "a0", "obj": "A6", "d": 2, "l": 6, "pos": "P", "topo": "T", "w": None, "call": ["ta", "0.4", True]},
+    {"id": "a1", "obj": "A6", "d": 2, "l": 6, "pos": "P", "topo": "T", "w": None, "call": ["ta", "0.4", False]},
+    {"id": "a2", "obj": "A6", "d": 2, "l": 6, "pos": "P", "topo": "T", "w": None, "call": ["ta", "0.2", True]},
+    {"id": "a3", "obj": "A6", "d": 2, "l": 6, "pos": "P", "topo": "T", "w": None, "call": ["sp", 0.5]},
+    {"id": "a4", "obj": "A6", "d": 2, "l": 6, "pos": "P", "topo": "T", "w": None, "call": ["tc", 0.002]},
+    {"id": "b0", "obj": "B6", "d": 2, "l": 6, "pos": "P", "topo": "U", "w": None, "call": ["ta", "0.4", True]},
+    {"id": "c0", "obj": "C6", "d": 2, "l": 6, "pos": "R", "topo": "T", "w": None, "call": ["ta", "0.4", True]},
+    {"id": "d0", "obj": "A4", "d": 2, "l": 4, "pos": "P", "topo": "T", "w": None, "call": ["ta", "0.4", True]},
+    {"id": "d1", "obj": "A3", "d": 2, "l": 3, "pos": "P", "topo": "T", "w": None, "call": ["ta", "0.4", False]},
+    {"id": "s0", "obj": None, "d": 2, "l": 6, "pos": "P", "topo": "T", "w": None, "call": ["ta", "0.4", True], "shared": True},
+    {"id": "s1", "obj": None, "d": 2, "l": 6, "pos": "P", "topo": "U", "w": None, "call": ["ta", "0.4", True], "shared": True},
+    {"id": "w0", "obj": "W6", "d": 2, "l": 6, "pos": "P", "topo": "T", "w": "var", "call": ["ta", "0.4", True]},
+    {"id": "w1", "obj": "V6", "d": 2, "l": 6, "pos": "P", "topo": "T", "w": "zero", "call": ["ta", "0.4", True]},
+    {"id": "q0", "obj": "Q6", "d": 3, "l": 6, "pos": "P", "topo": "T", "w": None, "call": ["ql", False]},
+    {"id": "q1", "obj": None, "d": 3, "l": 6, "pos": "P", "topo": "U", "w": None, "call": ["ql", True], "shared": True},
+]
+WORD_TRIPLES_QUICK = [["a0", "a1", "a0"], ["a0", "d0", "a0"], ["s0", "s1", "s0"], ["q0", "a0", "q0"], ["q1", "s0", "q1"], ["a3", "a4", "a3"], ["w0", "a0", "w1"], ["a2", "a0", "a1"]]
+
+
+def _c10_words_child(case):
+    return C9.words_child(case, WORD_LETTERS, "c10_wd")
+
+
+_WORD_FRESH = {}
+
+
+def gen_words(tier, seed):
+    yield from C9.gen_words(tier, seed, letters=WORD_LETTERS, triples=WORD_TRIPLES_QUICK)
+
+
+def run_words(case):
+    import functools
+
+    return C9.run_words(case, letters=WORD_LETTERS, child=_c10_words_child, sub="C10.sequence", cache=_WORD_FRESH,
+                        refcheck=functools.partial(C9.word_refcheck, sub="C10.sequence"))
 
 
 # ------------------------------------------------------------------------------------------
@@ -796,8 +1147,33 @@ def subs(tier, seed):
                  + str(SCALE_F[tier]) + " frames of 16 particles with averaging windows 1, 2, 63..65, 127..129, F-1; every entry of psi_l, modulus, spatial_corr, time_corr, time_average (both "
                  "modes) vs vectorised references (mc/ref/c10x.py); non-trivial = ragged lists and >= 2 populated gA bins",
             bounds={"N": SCALE_N[tier], "F": SCALE_F[tier], "max_cn": 14}),
+        Sub("C10.frames", gen_frames, run_frames,
+            rule="FRAME CLASSES (see C09.frames): trajectories of 5 particles, F=2: ALL 25 ordered pairs of topology classes {largest cn 4 on the first particle only, on the last only, everybody 1, everybody 2, "
+                 "ragged with 3} (neighbour AND weight tables shrink to each frame's own largest cn) x " + ("4" if q else "all 9") + " ordered cell-class pairs {orthogonal, tilted, tilted otherwise} at constant edge "
+                 "lengths x " + ("{unweighted, equal->signed, signed->equal, positive->signed, signed->positive, signed->zero-containing, zero-containing->signed, integer-token->signed}" if q else
+                                 "unweighted + all 25 ordered pairs of weight classes {all equal, varied positive, varied with negative entries, one exact zero per row, signed integer tokens '-1 2 1'}")
+                 + "; F=3: all triples over " + ("3" if q else "5") + " topology classes x 3 cell triples x 3 weight triples; l cycles through 1..12 and Nmax through {default 10, largest cn, largest cn - 1}; "
+                 "psi_l, modulus, time_corr, spatial_corr, time_average (periods 0.2, 0.4, both modes) vs the loop references per frame",
+            bounds={"N": 5, "F": [2, 3], "topology_classes": 5, "cell_classes": 3, "weight_classes": 5}),
+        Sub("C10.files", gen_files, run_files,
+            rule="OUTPUT FILES: " + ("3" if q else "6") + " trajectories (F = 2..5) x {unweighted, signed weights} x l in " + ("{6,1}" if q else "1..12") + ": output_phi in {name, name.npy}; time_average(period in {0.2,0.4,0.6}, both "
+                 "modes, outputfile in {'', name, name.npy, name.dat, name.dat.npy}): the returned average / ids are the same whatever file is requested (and equal the window means), <name>[.npy] holds the complex "
+                 "average bit for bit, <name>.snapshot_id.dat holds the header 'middle_snapshot_id' and the returned ids as integers; spatial_corr / time_corr csv equal the returned tables at %.8f",
+            bounds={"name_forms": FILE_NAMES}),
+        Sub("C10.types", gen_types, run_types,
+            rule="STORAGE / ARGUMENT FORMS: 5 three-frame trajectories (topology classes; weights signed -> one exact zero per row -> positive) x forms {reference form (signed integer tokens), ppp as list / tuple / bool "
+                 "array / int32 array, positions float32 (2e-6) / Fortran-ordered / strided view, l as np.int64, Nmax as np.int32, particles at the origin / exactly on box faces, UNWRAPPED coordinates shifted by "
+                 "whole cell vectors n.H with n in {0,+2,-3,+4,-2} per particle and periodic axis, the whole system DILATED by 2^-33 / 2^27, cell matrix AND positions Fortran-ordered (both must come back unchanged), "
+                 "all weights x 2^-33 / 1e-9 / 2^27 (psi_l is scale-free in the weights), explicit zero options (time_corr dt = 0.0 / 0), timesteps offset by 2e9} x l in "
+                 + ("{1,6,11}" if q else "1..12") + " x {orth, tri} x masks {11; 01, 10 for the ppp / unwrapped forms} x {unweighted, weighted}; psi_l, modulus, time_corr, time_average, spatial_corr vs the loop "
+                 "references; the position arrays must come back unchanged",
+            bounds={"forms": TYPE_FORMS}),
         Sub("C10.sequence", gen_sequence, run_sequence,
-            rule="explicit-state search over call sequences on ONE boo_2d object (6 particles, 5 frames with changing topology / tilts): alphabet of 8 calls = time_average x "
+            rule="(b) CALL WORDS in forked children with re-imported library modules: all words of length <= " + ("2 (+ 8 triples)" if q else "3") + " over 15 letters = complete (object, call) tuples colliding in "
+                 "plausible incomplete cache keys: same l / other neighbour file, same neighbour file / other configurations, same files / other l (6, 4, 3), same file NAME / other content, other weights on the same "
+                 "topology, a boo_3d object before / after a boo_2d object on the same neighbour file, time_average in both modes and with two periods + spatial_corr + time_corr on ONE object; objects stay alive "
+                 "within a word; every call must return bit for bit what it returns when made first in a fresh child, and that first call equals the reference.  "
+                 "(a) explicit-state search over call sequences on ONE boo_2d object (6 particles, 5 frames with changing topology / tilts): alphabet of 8 calls = time_average x "
                  "{period 0.2, 0.4} x {average_complex True, False}, spatial_corr x {0.5, 0.3}, time_corr x {dt 0.002, 0.5}; all 64 ordered pairs and all 512 triples per root; every result "
                  "must equal the same call on a fresh object, ParticlePhi must stay unchanged, a second live object (other l, files, configurations) must be unaffected",
             bounds={"letters": 8, "depth": 3}),
